@@ -77,6 +77,14 @@ def r1_compare(ck, prog, run):
                     k += 1
                     ops.append((sp.Symbol(f"R{k}_int", real=True) * CYCLE, sp.Symbol(f"R{k}_frac", real=True) * CYCLE))
             expected = (ops[0][0] - ops[1][0]) + (ops[0][1] - ops[1][1])
+            from ..values import CondV as _CondV
+            if name in ("equal", "not_equal") and args and (isinstance(args[0], (_CondV, BoolV)) or
+                                                            (isinstance(args[0], Num) and isinstance(args[0].expr, sp.logic.boolalg.Boolean))):
+                # (in)equality decided on the stored fields instead of the difference: exact, and right as long as every Phase in existence
+                # is in ONE canonical form -- an invariant of the whole class that this rule does not establish.  Not a violation.
+                ck.unk("R1", f.where, tag, f"{sym} is decided as ufunc((int0 - int1) + (frac0 - frac1), 0)",
+                       f"decided field-wise on {str(getattr(args[0], 'expr', args[0]))[:120]}: correct only if the (count, fraction) pair of a value is unique")
+                continue
             ok = len(args) == 2 and isinstance(args[0], Num) and sp.simplify(args[0].expr - expected) == 0 and isinstance(args[1], Num) and args[1].expr == 0
             ck.same("R1", f.where, tag, f"{sym} is decided as ufunc((int0 - int1) + (frac0 - frac1), 0): operand order and both parts of both operands enter",
                     ok, found=str([str(a)[:90] for a in args]), nontrivial=True)
@@ -90,9 +98,16 @@ def r1_compare(ck, prog, run):
         r = ck.attempt("R1", m.where, f"Phase.{meth}", "evaluates", lambda: ev.call(m, [q], {}, self_val=p))
         if r is not None:
             calls = [t for t in ev.trace if t[0] == "ufunc-call" and t[1] == uf_]
-            ck.same("R1", m.where, f"Phase.{meth}", f"routes to np.{uf_} on the two-part difference", len(calls) == 1
-                    and sp.simplify(calls[0][2][0].expr - ((part(p, 'int').expr - part(q, 'int').expr) + (part(p, 'frac').expr - part(q, 'frac').expr))) == 0,
-                    found=str([[str(a)[:80] for a in t[2]] for t in calls]), nontrivial=True)
+            arith = [t for t in calls if t[2] and isinstance(t[2][0], Num) and not isinstance(t[2][0].expr, sp.logic.boolalg.Boolean)]
+            if calls and not arith or not calls:
+                # (in)equality decided some other way (say, by comparing the stored fields): right only if every Phase in existence is in
+                # one canonical form -- a package-wide invariant this rule does not establish
+                ck.unk("R1", m.where, f"Phase.{meth}", f"routes to np.{uf_} on the two-part difference",
+                       f"the comparison is not taken on an arithmetic difference: {str([[str(a)[:60] for a in t[2]] for t in calls])[:200] or 'no ' + uf_ + ' call at all'}")
+            else:
+                ck.same("R1", m.where, f"Phase.{meth}", f"routes to np.{uf_} on the two-part difference", len(calls) == 1
+                        and sp.simplify(calls[0][2][0].expr - ((part(p, 'int').expr - part(q, 'int').expr) + (part(p, 'frac').expr - part(q, 'frac').expr))) == 0,
+                        found=str([[str(a)[:80] for a in t[2]] for t in calls]), nontrivial=True)
     # grouping: simulate IEEE double evaluation of the *extracted* difference, in the association order of the source, on
     # phases that differ by less than the resolution of their cycle count
     from .. import terms as T
